@@ -275,6 +275,7 @@ def run(ctx):
     if consts.get("SYSLOG_SZ_MAX") != U.SYSLOG_SZ_MAX or consts.get("BLOCKSZ_DEF") != U.BLOCKSZ_DEF:
         ctx.obligation_broken("translator", "constants used by the class predicates changed", json.dumps(consts))
     # ---- A
+    vlib.build_s4()        # before the proof stage: generator `blocks` probes the binary for the --blocksz forms (keeps the Coq lock short)
     vlib.proof_stage(ctx, PROP_FILE, ["blocks", "datetime", "regexes"], extra_targets=["Corr/C02.vo", "Props/C02.vo", "Corr/C12.vo"])
     okh, logh = vlib.build_harness("c02")
     okg, logg = vlib.build_harness("c12")
